@@ -229,6 +229,8 @@ def build_mode(case, parent):
                                                                    "count_scale": float(case.get("count_scale", 0.0))}}]})
     det = pyx.make_detector("CCD", ROWS, COLS)
     times = [1.0] if case["readouts"] == 1 else [1.0, 2.5]
+    if case.get("yaml") and case["mode"] != "deprecated-exposure":
+        return build_mode_yaml(case, parent, save, times)
     if case["mode"] == "deprecated-exposure":
         out = ExposureOutputs(output_folder=parent, save_data_to_file=save,
                               **({"custom_dir_name": case["prefix"]} if case["prefix"] else {}))
@@ -245,6 +247,51 @@ def build_mode(case, parent):
                         ParameterValues(key="pipeline.photon_collection.c19.arguments.b", values=[float(x) for x in case["b"]])],
             outputs=out, readout=Readout(times=times), with_dask=(case["mode"] == "parallel"))
     return mode, det, pipe, out
+
+
+def build_mode_yaml(case, parent, save, times):
+    """the same simulation described by a YAML document and built by `pyxel.loads` — with every combination of the
+    current (`save_data_to_file`) and the deprecated (`save_observation_data` / `save_exposure_data`) output keys"""
+    import pyxel
+    import yaml
+
+    outputs = {"output_folder": parent}
+    if case["prefix"]:
+        outputs["custom_dir_name"] = case["prefix"]
+    y = case["yaml"]
+    if y.get("current", True):
+        outputs["save_data_to_file"] = save
+    dep_key = "save_exposure_data" if case["mode"] == "exposure" else "save_observation_data"
+    if y["deprecated"] == "empty":
+        outputs[dep_key] = []
+    elif y["deprecated"] == "null":
+        outputs[dep_key] = None
+    elif y["deprecated"] == "value" and case["mode"] != "exposure":
+        outputs[dep_key] = [{"dataset": ["nc"]}]
+    if y.get("key_order") == "deprecated-first":
+        outputs = dict(reversed(list(outputs.items())))
+    readout = {"readout": {"times": times}}
+    if case["mode"] == "exposure":
+        mode_doc = {"exposure": {**readout, "outputs": outputs}}
+    else:
+        mode_doc = {"observation": {
+            "mode": "product", "with_dask": case["mode"] == "parallel", **readout, "outputs": outputs,
+            "parameters": [{"key": "pipeline.photon_collection.c19.arguments.a", "values": [float(x) for x in case["a"]]},
+                           {"key": "pipeline.photon_collection.c19.arguments.b", "values": [float(x) for x in case["b"]]}]}}
+    doc = {
+        **mode_doc,
+        "ccd_detector": {
+            "geometry": {"row": ROWS, "col": COLS, "total_thickness": 40.0, "pixel_vert_size": 10.0, "pixel_horz_size": 10.0},
+            "environment": {"temperature": 200.0},
+            "characteristics": {"quantum_efficiency": 0.9, "charge_to_volt_conversion": 1e-6, "pre_amplification": 100.0,
+                                "full_well_capacity": 100000, "adc_bit_resolution": 16, "adc_voltage_range": [0.0, 10.0]}},
+        "pipeline": {"photon_collection": [{"name": "c19", "func": "probes.c19_fill", "enabled": True,
+                                            "arguments": {"a": float(case["a"][0]), "b": float(case["b"][0]),
+                                                          "as_particles": bool(case.get("particles", False)), "count_scale": 0.0}}]},
+    }
+    cfg = pyxel.loads(yaml.safe_dump(doc, sort_keys=False))
+    mode = cfg.running_mode
+    return mode, cfg.detector, cfg.pipeline, mode.outputs
 
 
 def current_dir(out):
@@ -600,6 +647,10 @@ def gen_runs(rng, n, mode):
         if any(bk == "charge" for bk, _ in save):
             # the charge bucket is (partly) held as charge clusters (costly: every read of the bucket re-bins the clusters)
             extra["particles"] = rng.random() < (0.5 if mode != "sequential" else 0.25)
+        if rng.random() < 0.35:
+            # the YAML route, with the deprecated output key absent / empty / null / set, before or after the current one
+            extra["yaml"] = {"deprecated": rng.choice(["absent", "empty", "null", "value"]),
+                             "key_order": rng.choice(["current-first", "deprecated-first"])}
         case = {"stream": f"run-{mode}", "id": i, "mode": mode, "save": save, **extra, "a": a, "b": b,
                 "readouts": rng.choice([1, 1, 2]), "prefix": prefix,
                 "starts": rng.choice([1, 1, 2, 3]) if mode != "parallel" else (1 if extra.get("plant") else rng.choice([1, 2])),
@@ -670,7 +721,8 @@ def statement_deprecated(case, impl):
 def gen_plans(rng, n):
     """the deprecated pyxel.exposure_mode with 3-23 readouts (one automatically numbered save per readout, npy / fits / txt); "
                "the charge bucket held partly as charge clusters in 60 % of the runs that save it; "
-               "one mode object started 2-3 times in one process"""
+               "35 % of the runs described by a YAML document (pyxel.loads) with the deprecated output key absent / empty / null / set, "
+               "before or after save_data_to_file; one mode object started 2-3 times in one process"""
     cases = []
     for i in range(n):
         mode = ["exposure", "parallel", "sequential", "parallel"][i % 4]
@@ -707,6 +759,11 @@ def directed_runs():
     out.append({"stream": "run-parallel", "id": "planted-collision", "mode": "parallel", "save": [["image", ["fits", "npy"]], ["pixel", ["npy"]]],
                 "a": [1, 2], "b": [3], "readouts": 1, "prefix": "", "starts": 1, "pre": [], "computes": 2,
                 "plant": ["detector_image_0.fits", "detector_pixel_1.npy"]})
+    for mode in ("exposure", "sequential", "parallel"):
+        for dep in ("absent", "empty", "null", "value"):
+            out.append({"stream": f"run-{mode}", "id": f"yaml-{dep}-{mode}", "mode": mode, "save": [["pixel", ["npy"]], ["image", ["npy", "fits"]]],
+                        "a": [1] if mode == "exposure" else [1, 2], "b": [3], "readouts": 1, "prefix": "", "starts": 1, "pre": [],
+                        "yaml": {"deprecated": dep, "key_order": "deprecated-first" if dep == "value" else "current-first"}})
     for mode in ("exposure", "sequential", "parallel"):
         out.append({"stream": f"run-{mode}", "id": f"charge-as-clusters-{mode}", "mode": mode, "save": [["charge", ["npy", "fits"]], ["pixel", ["npy"]]],
                     "a": [1] if mode == "exposure" else [1, 2], "b": [3], "readouts": 1, "prefix": "", "starts": 1, "pre": [], "particles": True})
@@ -915,6 +972,8 @@ def body(ck: common.Check):
                 for _, fmts in case["save"]:
                     for f in fmts:
                         ck.count(f"format={f}")
+                if case.get("yaml"):
+                    ck.count(f"{s}:built-from-YAML:deprecated-output-key={case['yaml']['deprecated']}")
                 if case.get("particles") and any(bk == "charge" for bk, _ in case["save"]):
                     ck.count(f"{s}:charge-bucket-held-as-clusters")
                 if case["mode"] == "parallel":
